@@ -136,11 +136,17 @@ Definition get_sanitized_output_path (fname : str) (cwd : rpath) (path : option 
     if is_relative_to outfile path then Some outfile else None
   end.
 
-(* helpers.is_path_valid(target, parent), parent a path object (the None case is an AttributeError
-   raised by the caller's model) *)
-Definition is_path_valid (target : ppath) (cwd : rpath) (parent : ppath) : bool :=
-  if p_is_abs parent then is_relative_to (canonical_path target) parent
-  else is_relative_to (canonical_path target) (pjoinp (mkP 1 cwd) parent).
+(* helpers.is_path_valid(target, parent); parent None = extraction without a destination: relative to the
+   current directory *)
+Definition is_path_valid (target : ppath) (cwd : rpath) (parent : option ppath) : bool :=
+  match parent with
+  | None =>
+    let c := canonical_path (mkP 1 cwd) in
+    is_relative_to (canonical_path (pjoinp c target)) c
+  | Some parent =>
+    if p_is_abs parent then is_relative_to (canonical_path target) parent
+    else is_relative_to (canonical_path target) (pjoinp (mkP 1 cwd) parent)
+  end.
 
 (* order of pathlib paths: str(p).split("/") compared as lists of strings *)
 Definition sort_key (p : ppath) : list str :=
